@@ -31,7 +31,7 @@ type Engine interface {
 // ---------------------------------------------------------------------------------------------
 // Sequential, fault-free engine: C01, C02, C16 (and the baseline of everything else).
 
-type seqEngine struct{}
+type seqEngine struct{ retainMode bool }
 
 var bigValue []byte
 
@@ -51,10 +51,25 @@ func seqWeights(prop string, rng *rand.Rand) map[string]int {
 	return w
 }
 
-func (seqEngine) Generate(rng *rand.Rand, prop string, thorough bool) *Plan {
+func (se seqEngine) Generate(rng *rand.Rand, prop string, thorough bool) *Plan {
 	cfg := GenCfg(rng)
 	p := &Plan{Property: prop, Engine: "seq", Cfg: cfg}
 	g := GenOpts{MinOps: 10, MaxOps: 200, Weights: seqWeights(prop, rng), Sessions: prop == "C02"}
+	if se.retainMode {
+		// C14: read a lot, keep what was returned, then make the files move under it
+		cfg.Alias = rng.Intn(8) != 0
+		cfg.Poison = cfg.Alias
+		if cfg.Family == int(KFLengths) {
+			cfg.Family = int(KFTiny)
+		}
+		cfg.MaxSeg = []uint32{600, 1024, 2048, 4096}[rng.Intn(4)]
+		cfg.CompMinSeg = 1
+		cfg.CompFrag = []float32{0.01, 0.1, 0.3}[rng.Intn(3)]
+		p.Cfg = cfg
+		p.Engine = "retain"
+		g.Sessions = true
+		g.Weights = map[string]int{"put": 30, "del": 10, "get": 25, "geta": 12, "has": 2, "count": 1, "items": 6, "sync": 2, "compact": 8, "close": 4, "filesize": 0}
+	}
 	if thorough {
 		g.MaxOps = 400
 	}
@@ -116,9 +131,16 @@ func segmentDigest(fs *SimFS) uint64 {
 	return h
 }
 
-func (seqEngine) Execute(p *Plan) *RunResult {
+func (se seqEngine) Execute(p *Plan) *RunResult {
 	res := newResult()
 	e := NewEnv(p.Cfg, p.KeyBytes(), nil, false)
+	if se.retainMode {
+		e.RetainCap = 600
+		defer func() {
+			res.Faults["buffer_poisoned"] += e.FS.Stats.Poisoned
+			res.Faults["file_remapped"] += e.FS.Stats.Remaps
+		}()
+	}
 	defer func() { res.Probes.Add(e.Probes) }()
 	fail := func(v *Violation) *RunResult { res.V = v; return res }
 	if err := e.Open(); err != nil {
@@ -149,6 +171,11 @@ func (seqEngine) Execute(p *Plan) *RunResult {
 		if v != nil {
 			v.Detail = "op#" + itoa(i) + " " + op.String() + ": " + v.Detail
 			return fail(v)
+		}
+		if se.retainMode {
+			if v := e.CheckRetained("after op#" + itoa(i) + " " + op.String()); v != nil {
+				return fail(v)
+			}
 		}
 		switch op.K {
 		case "close":
